@@ -428,6 +428,12 @@ def to_manifest_tree(adef, rng=None):
         t["config"] = c
     for o in adef["objects"]:
         t[o["name"]] = _m_object(o, sp)
+    if rng and "config" in t and len(t) > 1 and rng.random() < 0.3:
+        # the position of the `config` entry among the top-level keys is free (all three parsers keep key order): an
+        # equivalent spelling; the global defaults apply to the objects written BEFORE it too (seed C06-8)
+        items = [(k, v) for k, v in t.items() if k != "config"]
+        items.insert(rng.randrange(1, len(items) + 1), ("config", t["config"]))
+        t = dict(items)
     return t
 
 
